@@ -3,6 +3,11 @@ changed code, e.g. after a fix: commit).  usage: pin_sources.py [ids…]   (defa
 Transcribed and traversed items are treated alike (the hash of every listed item); the SET of traversed items is re-measured by
 py/tools/pin_traversed.py — run it after this refresh when a fix added, removed or renamed functions / module-level names, or
 re-routed calls (a traversed item that vanished is reported NOT FOUND here and dropped there)."""
+# the normalised-AST hash depends on the interpreter's ast.dump: always run under the interpreter ./check uses
+import os as _os, sys as _sys
+if _os.path.exists("/venv/bin/python") and _os.path.realpath(_sys.executable) != _os.path.realpath("/venv/bin/python"):
+    _os.execv("/venv/bin/python", ["/venv/bin/python"] + _sys.argv)
+
 import glob, json, os, subprocess, sys
 sys.path.insert(0, os.path.join(os.path.dirname(os.path.abspath(__file__)), ".."))
 from vlib import pins
